@@ -1103,6 +1103,15 @@ func genScenario(r *hx.Rng, i int, allowOpaque bool) *Scenario {
 	next := map[string]uint64{}
 	for k := 0; k < ntx; k++ {
 		a := poolAddrs[perm[r.Intn(na)]]
+		if r.Chance(2, 3) {
+			// prefer a sender that can pay the fee (the fee-short branch used to dominate the stream)
+			for try := 0; try < 4; try++ {
+				if b := bals[a]; b != nil && b.Cmp(new(big.Int).Mul(fee, big.NewInt(4))) > 0 {
+					break
+				}
+				a = poolAddrs[perm[r.Intn(na)]]
+			}
+		}
 		if r.Chance(1, 12) {
 			a = poolAddrs[r.Intn(len(poolAddrs))] // maybe an unfunded sender
 		}
